@@ -111,6 +111,10 @@ def make_variant(base, variant):
 @st.composite
 def _iface_case(draw, tier):
     spec, combo = draw(solve.spec_and_combo())
+    if spec["noise_type"] in ("general", "additive"):
+        # wider diffusion matrices too: a matrix-vector product computed by another kernel than torch.bmm first differs
+        # in the last bits from five columns on
+        spec["m"] = draw(st.sampled_from([spec["m"], spec["m"], 5, 6, 7]))
     tset = draw(solve.time_setup(max_steps=6))
     return {"kind": "iface", "spec": spec, "combo": combo, "time": tset, "variant": draw(st.sampled_from(VARIANTS)),
             "entropy": draw(st.integers(0, 2 ** 31 - 2))}
@@ -136,7 +140,9 @@ def enumerate_cases(tier):
     for idx, combo in enumerate(sdes.accepted_combos(include_grad_free=True, all_levy=False)):
         rnd = random.Random(seed * 4001 + idx)
         nt = combo["noise_type"]
-        spec = {"sde_type": combo["sde_type"], "noise_type": nt, "d": 2, "m": 1 if nt == "scalar" else 2, "batch": 2,
+        wide = nt in ("general", "additive") and idx % 2 == 1
+        spec = {"sde_type": combo["sde_type"], "noise_type": nt, "d": 2, "m": 1 if nt == "scalar" else (6 if wide else 2),
+                "batch": 2,
                 "hidden": 3, "seed": rnd.randrange(2 ** 31), "tdep": True, "fscale": 1.0, "gscale": 0.7,
                 "dtype": "float64"}
         for variant in VARIANTS:
